@@ -9,7 +9,8 @@ def _known(repo):
     if not m:
         raise Exception('knownFieldNames table not found')
     names = re.findall(r'"(\w+)"', m.group(1))
-    return '\n'.join('#define KNOWN_%s %d' % (n, i) for i, n in enumerate(names)) + '\n#define KNOWN_COUNT %d\n' % len(names), len(names)
+    return ('\n'.join('#define KNOWN_%s %d' % (n, i) for i, n in enumerate(names)) + '\n#define KNOWN_COUNT %d\n' % len(names)
+            + 'static const char* const knownFieldNames[] = {%s};\n#define knownFieldCount KNOWN_COUNT\n' % ', '.join('"%s"' % n for n in names)), len(names)
 
 
 # StringReplacer::get(values, untilFirstEmpty, onlyAlphanum): ostringstream -> string value model; the map of values is indexed by the known field index
@@ -41,6 +42,25 @@ _MATCH = [(r'FileReader::tolower\(&(\w+)\);', lambda m: 'env_tolower(&%s);' % m.
           (r'str\.substr\(last, (pos[^()]*)\)', lambda m: 'vstr_substr(&str, last, %s)' % m.group(1), 1),
           (r'value\.length\(\)', 'value.n', (1, 3))]
 
+_MAKE = [(r'return \{name, ([^}]+)\};', lambda m: 'return mk_part(name, %s);' % m.group(1), 3),
+         (r'name == knownFieldNames\[idx\]', 'vstr_eq_cstr(name, knownFieldNames[idx])', 1)]
+_ADDPART = [(r'string str = stack\.str\(\);', 'vstr str = *stack;', 1),
+            (r'str == "_"', "vstr_eq_lit1(&str, '_')", 1),
+            (r'str = "%\{" \+ str;', "str = vstr_prefix2('%', '{', &str);", 1),
+            (r'stack\.str\(""\);', 'vstr_clear(stack);', 1),
+            (r'!m_parts\.empty\(\)', '(m_parts.n != 0)', 1),
+            (r'm_parts\[m_parts\.size\(\)-1\]\.second', 'm_parts.e[m_parts.n-1].second', 1),
+            (r'm_parts\[m_parts\.size\(\)-1\]\.first \+= str;', 'vstr_append(&m_parts.e[m_parts.n-1].first, &str);', 1),
+            (r'm_parts\.push_back\(makeField\(str, inField > 0\)\);', 'partvec_push(&m_parts, SR_makeField(&str, inField > 0));', 1)]
+_PARSE = [(r'm_parts\.clear\(\);', 'm_parts.n = 0;', 1),
+          (r'ostringstream stack;', 'vstr stack = vstr_new();', 1),
+          (r'for \(auto ch : templateStr\) \{', 'for (size_t ci = 0; ci < templateStr->n; ci++) {\n    char ch = templateStr->d[ci];', 1),
+          (r'stack\.tellp\(\) <= 0', '(stack.n == 0)', 1),
+          (r'stack << ch;', 'vstr_push(&stack, ch);', 2),
+          (r'addPart\(stack, (\w+)\);', lambda m: 'SR_addPart(self, &stack, %s);' % m.group(1), (3, 6)),
+          (r'for \(const auto &it : m_parts\) \{', 'for (size_t pi = 0; pi < m_parts.n; pi++) {\n      const struct part* it = &m_parts.e[pi];', 1),
+          (r'\bit\.second\b', 'it->second', (2, 8))]
+
 UNIT = dict(
     trusted=['std::string / ostringstream are bounded value models (capacity per run, stated as bound); the parts vector is a fixed-capacity array; the values map is indexed by the known field index of a part (the name/index consistency established by StringReplacer::makeField is assumed)'],
     generated=[_known],
@@ -50,6 +70,11 @@ UNIT = dict(
         text_subs=[(r'vstr::npos', 'VSTR_NPOS')],
     ),
     functions=[
+        dict(file=SH_CPP, name='StringReplacer::makeField', cname='SR_makeField', self=None, ret='struct part', params_c=['const vstr* name', '_Bool isField'], pre_subs=_MAKE),
+        dict(file=SH_CPP, name='StringReplacer::addPart', cname='SR_addPart', self='struct StringReplacer', ret='void', params_c=['vstr* stack', 'int inField'], pre_subs=_ADDPART,
+             cfg=dict(methods={'empty': 'vstr_empty'})),
+        dict(file=SH_CPP, name='StringReplacer::parse', cname='SR_parse', self='struct StringReplacer', ret='_Bool',
+             params_c=['const vstr* templateStr', '_Bool onlyKnown', '_Bool noKnownDuplicates', '_Bool emptyIfMissing'], pre_subs=_PARSE),
         dict(file=SH_CPP, name='StringReplacer::checkMatchability', cname='SR_checkMatchability', self='struct StringReplacer',
              pre_subs=[(r'for \(const auto& part : m_parts\) \{', 'for (size_t pi = 0; pi < m_parts.n; pi++) {\n    const struct part part = m_parts.e[pi];', 1)]),
         dict(file=SH_CPP, name='StringReplacer::get', sig='const map<string, string>& values', cname='SR_get', self='struct StringReplacer', ret='vstr',
@@ -72,3 +97,7 @@ def R(id, entry, enforce=None, replace=(), loops=False, props=('C18', 'C20'), **
 
 R('roundtrip', 'h_topic_roundtrip', None, unwind=12, defines=['VSTR_CAP=10', 'PCAP=5'], cost=200, timeout=2400,
   bounded='templates of up to 5 parts, constants and identifiers up to 2 characters, topics up to 10 characters (string model capacity)')
+R('parse', 'h_topic_parse', None, unwind=12, defines=['VSTR_CAP=7', 'PCAP=7'], cost=200, timeout=2400,
+  bounded='templates of up to 7 characters (string model capacity)')
+R('parse9', 'h_topic_parse', None, unwind=12, defines=['VSTR_CAP=9', 'PCAP=9'], cost=1500, timeout=5000, tier='thorough',
+  bounded='templates of up to 9 characters (string model capacity)')
